@@ -101,3 +101,75 @@ From Spec Require TablesOK.
 Theorem C14_no_bare_word_exemption : TablesOK.tables_ok_bare current = true.
 Proof. vm_compute. reflexivity. Qed.
 Print Assumptions C14_no_bare_word_exemption.
+
+(* ---------- the converse, all positions ---------- *)
+From Proofs Require Import TableFacts Survivors SurvivorsLine LineRel RelCorollaries SelHot SelLine.
+Close Scope string_scope.
+
+(* A walker (any of the three, outside Atlas Search stages) whose key path already holds a name matching R
+   computes exactly the tree that the same walker computes in full-redaction mode (re = None) - for ANY
+   tables and any tree that is [plain]: no key opens a search stage, a matching key is not the name of a
+   list-valued operator argument, and no $facet-style map of named sub-pipelines sits under a matching
+   name (the walkers restart the key path there). *)
+Theorem C14_matched_as_full_mode : forall tb cs c A r t m s',
+  re c = Some r -> mode_hot r m -> plain tb r true t ->
+  walk tb cs c is_email A m t = walk tb cs (set_re c None) is_email A (resel m s') t.
+Proof. intros tb cs c A r t m s' H. exact (walk_hot tb cs c is_email A r H t m s'). Qed.
+Print Assumptions C14_matched_as_full_mode.
+
+(* Started with ANY key path, the selective-mode output and the full-mode output of a walker agree at
+   EVERY index path on which some key of the input matches R: everything under a matching name, at any
+   depth, through operators and arrays, is redacted precisely where and how full mode redacts it. *)
+Theorem C14_all_positions : forall tb cs c A r t m s' p,
+  re c = Some r -> mode_cool m -> plain tb r false t -> nodup_keys t ->
+  existsb r (jkeys t p) = true ->
+  jget (walk tb cs c is_email A m t) p = jget (walk tb cs (set_re c None) is_email A (resel m s') t) p.
+Proof. intros tb cs c A r t m s' p H Hm Hq Hn. exact (walk_pa tb cs c is_email A r H t m s' Hm Hq Hn p). Qed.
+Print Assumptions C14_all_positions.
+
+(* the same for every query-bearing value of a command document *)
+Theorem C14_command_all_positions : forall tb cs c A r ins k v p,
+  re c = Some r -> plain tb r false v -> nodup_keys v -> existsb r (jkeys v p) = true ->
+  jget (cmd_member tb cs c A false ins k v) p = jget (cmd_member tb cs (set_re c None) A false ins k v) p.
+Proof. intros tb cs c A r ins k v p H Hq Hn. exact (cmd_member_pa tb cs c A r H ins k v Hq Hn p). Qed.
+Print Assumptions C14_command_all_positions.
+
+(* ... and therefore (with the survivor theorem of C01 for full mode): a literal that has a matching name
+   somewhere on its path, on a path that passes below no key named like a non-redactable table entry, is
+   replaced by the STRONG verdict for its kind - whatever its value *)
+Theorem C14_matching_name_redacted : forall tb cs c A r ins k v p leaf,
+  re c = Some r -> ~ In (""%string, Exempt) (all_entries tb) ->
+  zone_value ins k v = true -> nodup_keys v -> plain tb r false v ->
+  jget v p = Some leaf -> is_leaf leaf -> clear tb v p = true -> existsb r (jkeys v p) = true ->
+  exists d, strong cs (set_re c None) leaf d /\
+            jget (if nss c then ns_member A k (cmd_member tb cs c A false ins k v) else cmd_member tb cs c A false ins k v) p
+            = Some (apply_verdict A d leaf).
+Proof.
+  intros tb cs c A r ins k v p leaf Hre He Hz Hn Hq Hg Hl Hc Hm.
+  destruct (ok1_path tb cs (set_re c None) A _ _ (cmd_full_ok tb cs (set_re c None) A eq_refl He ins k v Hz Hn) p leaf Hg Hl Hc)
+    as (d & Hs & Hout).
+  exists d. split; [exact Hs|]. cbn [nss set_re] in Hout.
+  assert (Hp : p <> []) by (intros ->; discriminate).
+  pose proof (cmd_member_pa tb cs c A r Hre ins k v Hq Hn p Hm) as E.
+  destruct (nss c); [|now rewrite E].
+  unfold ns_member in *. destruct (key_in k ns_fields); [|now rewrite E].
+  rewrite (jget_hash_str A _ p Hp). rewrite (jget_hash_str A _ p Hp) in Hout. now rewrite E.
+Qed.
+Print Assumptions C14_matching_name_redacted.
+
+(* non-vacuity: R = (name is "ssn"); the literals sit under $in, inside an array of sub-documents, under
+   an update operator and inside a $facet sub-pipeline; all premises hold and the leaves are replaced *)
+Open Scope string_scope.
+Definition c14_r := fun s => String.eqb s "ssn".
+Definition c14_c := {| repl := "REDACTED"; nums := false; bools := false; ips := false; nss := false; eager := []; re := Some c14_r |}.
+Definition c14_pipeline : json :=
+  JArr [JObj [("$match", JObj [("ssn", JObj [("$in", JArr [JStr "S1"; JStr "S2"])]); ("city", JStr "Paris")])];
+        JObj [("$facet", JObj [("f", JArr [JObj [("$match", JObj [("owner", JObj [("ssn", JArr [JObj [("n", JStr "S3")]])])])]])])]].
+Example C14_converse_example :
+  plainb current c14_r false c14_pipeline = true /\
+  existsb c14_r (jkeys c14_pipeline [0; 0; 0; 0; 1]) = true /\ clear current c14_pipeline [0; 0; 0; 0; 1] = true /\
+  existsb c14_r (jkeys c14_pipeline [1; 0; 0; 0; 0; 0; 0; 0; 0]) = true /\ clear current c14_pipeline [1; 0; 0; 0; 0; 0; 0; 0; 0] = true /\
+  cmd_member current current_consts c14_c (real_actions current_consts c14_c None) false false "pipeline" c14_pipeline =
+  JArr [JObj [("$match", JObj [("ssn", JObj [("$in", JArr [JStr "REDACTED"; JStr "REDACTED"])]); ("city", JStr "Paris")])];
+        JObj [("$facet", JObj [("f", JArr [JObj [("$match", JObj [("owner", JObj [("ssn", JArr [JObj [("n", JStr "REDACTED")]])])])]])])]].
+Proof. vm_compute. repeat split; reflexivity. Qed.
